@@ -327,6 +327,48 @@ class ABoolTerm(object):
 SUMMARIES_USED = set()
 
 
+class ALambda(Term):
+    """A lambda: its body is evaluated when it is called, in the variables of
+    the defining frame as they are *then* (late binding); default values of
+    its parameters are evaluated when it is defined."""
+
+    def __init__(self, node, frame, defaults):
+        Term.__init__(self, "lambda")
+        self.node, self.frame, self.defaults = node, frame, defaults
+
+
+class AExitStack(object):
+    """contextlib.ExitStack: callbacks registered on it run, last first, when the with block is left."""
+
+    def __init__(self):
+        self.callbacks = []
+
+    def __repr__(self):
+        return "<ExitStack %d callback(s)>" % len(self.callbacks)
+
+
+class ANTType(object):
+    """A namedtuple class (collections.namedtuple / typing.NamedTuple)."""
+
+    def __init__(self, name, fields):
+        self.name, self.fields = name, list(fields)
+
+    def __repr__(self):
+        return "<namedtuple %s%r>" % (self.name, tuple(self.fields))
+
+
+class ANT(tuple):
+    """An instance of a namedtuple class: a tuple whose items also have names."""
+
+    _nt_fields = ()
+
+    @classmethod
+    def make(cls, fields, values):
+        o = cls(values)
+        o._nt_fields = tuple(fields)
+        return o
+
+
 class AGenCall(object):
     """A call of a repo generator function used as the iterable of a for loop:
     its body is run interleaved with the loop body (lazy iteration)."""
@@ -697,6 +739,14 @@ class Interp(object):
             return item in container
         if isinstance(container, AList) and not container.generic and isinstance(item, (str, int)):
             return item in container.items
+        if isinstance(container, AList) and not container.generic:
+            if not container.items:
+                self.path.effects.append(("contains", container, item, False))
+                return False
+            for x in container.items:
+                if x is item or (isinstance(x, Term) and isinstance(item, Term) and x == item):
+                    return True
+            return ABoolTerm("in", item, container)
         if isinstance(container, ASeq):
             return ABoolTerm("in", item, ASeq(container.kind, self.canon(container.pieces)))
         if isinstance(container, AMap):
@@ -1003,9 +1053,24 @@ class Frame(object):
             if pending:
                 raise pending[0]
             return
+        if isinstance(ctx, AExitStack):
+            if item.optional_vars is not None:
+                self.assign(item.optional_vars, ctx)
+            try:
+                return self.with_stmt(st, k + 1)
+            finally:
+                self.run_exit_callbacks(ctx, st)
         if item.optional_vars is not None:
             self.assign(item.optional_vars, ctx if ctx is not None else Term("context", Term("L%d" % st.lineno)))
         return self.with_stmt(st, k + 1)
+
+    def run_exit_callbacks(self, stack: "AExitStack", node):
+        I = self.I
+        I.path.effects.append(("exit-stack", len(stack.callbacks)))
+        while stack.callbacks:
+            fn, args, kwargs, depth = stack.callbacks.pop()
+            self.call_value(fn, args, kwargs, node)
+        return None
 
     def e_Yield(self, e):
         v = self.expr(e.value) if e.value is not None else None
@@ -1194,10 +1259,19 @@ class Frame(object):
                 pass
             except LoopBreak:
                 I.path.effects.append(("break", it.name))
-            finally:
                 I.loop_depth -= 1
+                return
+            except BaseException:
+                I.loop_depth -= 1
+                raise
+            I.loop_depth -= 1
             if st is I.step_loop:
                 raise StepDone(dict(self.env))
+            # the loop ran to its end: what the target names now is the last element, which the representative of
+            # "each element" must not be confused with (closures created in the body read the variable late)
+            for x in ast.walk(st.target):
+                if isinstance(x, ast.Name):
+                    self.env[x.id] = Term("last-element", Term(it.name))
             return
         elif isinstance(it, AMap):
             key = I.new_term("key")
@@ -1627,6 +1701,9 @@ class Frame(object):
                 name = "__lshift__" if isinstance(op, ast.LShift) else "__rshift__"
                 m = I.get_attr_of_obj(l, name, node)
                 return self.call_value(m, [r], {}, node)
+            if isinstance(l, ARec) and not l.circular:
+                # a plain SeqRecord has no rotation operators (T3)
+                raise RaiseSig(AExc("TypeError", ["unsupported operand type(s) for %s: 'SeqRecord' and 'int'" % ("<<" if isinstance(op, ast.LShift) else ">>")], {}))
         if isinstance(op, ast.Mod) and isinstance(l, str):
             return Term("format", Term(repr(l)), r if isinstance(r, Term) else Term(repr(r)))
         hook = I.hooks.get("binop")
@@ -1757,7 +1834,14 @@ class Frame(object):
         return self.expr(e.body if t else e.orelse)
 
     def e_Lambda(self, e):
-        return Term("lambda")
+        a = e.args
+        params = [x.arg for x in a.posonlyargs + a.args]
+        dvals = [self.expr(d) for d in a.defaults]
+        defaults = dict(zip(params[len(params) - len(dvals):], dvals))
+        for x, d in zip(a.kwonlyargs, a.kw_defaults):
+            if d is not None:
+                defaults[x.arg] = self.expr(d)
+        return ALambda(e, self, defaults)
 
     def e_GeneratorExp(self, e):
         return self.comprehension(e, "gen")
@@ -1855,6 +1939,21 @@ class Frame(object):
             if not all(I.truth(sub.expr(c), c) for c in g.ifs):
                 return AScan([])
             return AScan([sub.expr(e.elt)])
+        if isinstance(it, (AMap, AMapView)):
+            # a scan over the keys / values / items of a symbolic map: one generic entry stands for "some entry"; with
+            # conditions, the result is that entry's image (an entry satisfying them exists) or nothing (none does)
+            m = it if isinstance(it, AMap) else it.m
+            key = I.new_term("key")
+            val = m.value_for(key)
+            m.adds.append((key, val))
+            which = "keys" if isinstance(it, AMap) else it.which
+            elem = {"items": (key, val), "keys": key, "values": val}[which]
+            I.path.effects.append(("loop", "%s:%s" % (which, m.base), key))
+            sub = Frame(I, self.fi, dict(self.env), module=self.m)
+            sub.assign(g.target, elem)
+            if all(I.truth(sub.expr(c), c) for c in g.ifs):
+                return AScan([sub.expr(e.elt)])
+            return AScan([])
         if isinstance(it, AScan):
             # filtering / mapping a lazy scan keeps "the first element for which ..." semantics
             out = []
@@ -1980,6 +2079,30 @@ class Frame(object):
             if fn.circular:
                 return make_circular(self, args, kwargs, node)
             return lib_call(self, "Bio.SeqRecord.SeqRecord", args, kwargs, node)
+        if isinstance(fn, ALambda):
+            a = fn.node.args
+            if a.vararg or a.kwarg:
+                self.unsupported(node, "lambda with *args/**kwargs")
+            params = [x.arg for x in a.posonlyargs + a.args] + [x.arg for x in a.kwonlyargs]
+            env = dict(fn.frame.env)  # the enclosing variables as they are now
+            env.update(fn.defaults)
+            for nm, v in zip(params, args):
+                env[nm] = v
+            env.update(kwargs)
+            missing = [nm for nm in params if nm not in fn.defaults and nm not in env]
+            if len(args) > len(params) or missing:
+                raise RaiseSig(AExc("TypeError", ["<lambda>() arguments"], {}))
+            sub = Frame(I, fn.frame.fi, env, module=fn.frame.m)
+            return sub.expr(fn.node.body)
+        if isinstance(fn, ANTType):
+            vals = list(args) + [None] * (len(fn.fields) - len(args))
+            for k, v in kwargs.items():
+                if k not in fn.fields:
+                    raise RaiseSig(AExc("TypeError", ["unexpected keyword %s" % k], {}))
+                vals[fn.fields.index(k)] = v
+            if len(args) > len(fn.fields) or any(isinstance(a, tuple) and len(a) == 2 and a[0] == "starred" for a in args):
+                self.unsupported(node, "namedtuple constructor arguments %r" % (args,))
+            return ANT.make(fn.fields, vals)
         if isinstance(fn, Term):
             return Term("call", fn, *[_t(a) for a in args])
         self.unsupported(node, "call of %r" % (fn,))
@@ -2003,6 +2126,9 @@ class Frame(object):
             return AExc(ci, args, kwargs, where="%s:%s" % (self.m.relpath if self.m else "?", getattr(node, "lineno", "?")))
         if ci.qualname == "moclo.record.CircularRecord":
             return make_circular(self, args, kwargs, node)
+        if any(isinstance(b, Ext) and b.dotted in ("typing.NamedTuple",) for b in ci.bases) and ci.node is not None:
+            fields = [st.target.id for st in ci.node.body if isinstance(st, ast.AnnAssign) and isinstance(st.target, ast.Name)]
+            return self.call_value(ANTType(ci.name, fields), args, kwargs, node)
         obj = AObj(ci, {}, name=ci.name)
         owner, init = p.class_attr_def(ci, "__init__")
         if isinstance(init, FuncInfo):
@@ -2101,6 +2227,31 @@ def make_circular(fr: Frame, args, kwargs, node):
 
 def lib_getattr(fr: Frame, base, a: str, node):
     I = fr.I
+    if isinstance(base, AExitStack):
+        if a == "callback":
+            def cb(fr2, args, kwargs, node2):
+                if not args:
+                    fr2.unsupported(node2, "ExitStack.callback without a callable")
+                base.callbacks.append((args[0], list(args[1:]), dict(kwargs), I.loop_depth))
+                return args[0]
+            return BoundMethod("py", cb, a)
+        if a == "close":
+            return BoundMethod("py", lambda fr2, args, kwargs, node2: fr2.run_exit_callbacks(base, node2), a)
+        fr.unsupported(node, "ExitStack.%s" % a)
+    if isinstance(base, ANT):
+        if a in base._nt_fields:
+            return base[base._nt_fields.index(a)]
+        if a == "_fields":
+            return tuple(base._nt_fields)
+        if a == "_asdict":
+            return BoundMethod("py", lambda fr2, args, kwargs, node2: dict(zip(base._nt_fields, base)), a)
+        if a == "_replace":
+            def repl(fr2, args, kwargs, node2):
+                vals = list(base)
+                for k, v in kwargs.items():
+                    vals[base._nt_fields.index(k)] = v
+                return ANT.make(base._nt_fields, vals)
+            return BoundMethod("py", repl, a)
     if isinstance(base, ARec):
         if a == "seq":
             return ASeq("Seq", base.pieces)
@@ -2325,6 +2476,7 @@ def lib_call_method(fr: Frame, bm: BoundMethod, args, kwargs, node):
                 t.generic = True
                 t.generic_from = len(t.items)
             t.items.append(args[0])
+            I.path.effects.append(("mutate", t, "append", args))
             return None
         if name == "extend" and isinstance(args[0], AList):
             t.items.extend(args[0].items)
@@ -2338,6 +2490,9 @@ def lib_call_method(fr: Frame, bm: BoundMethod, args, kwargs, node):
                     return r
             if name == "find":
                 raise RaiseSig(AExc("AttributeError", ["'list' object has no attribute 'find'"], {}))
+            if name == "index" and len(args) == 1:
+                I.path.effects.append(("index-of", t, args[0]))
+                return Aff.sym("index(%r,%r)" % (t, args[0]))
     if bm.kind == "str":
         if name == "format":
             if all(isinstance(a, (str, int)) for a in args) and not kwargs:
@@ -2413,14 +2568,27 @@ def map_method(fr: Frame, m, name, args, kwargs, node):
         key = args[0]
         default = args[1] if len(args) > 1 else None
         I.path.effects.append(("map-get", m.base, key))
-        c = I.path.choose("get %r" % (key,), ["hit", "miss"])
-        if c == "hit":
+        if isinstance(key, Term):
+            for k, v in reversed(m.adds):
+                if isinstance(k, Term) and k == key and key not in m.removes:
+                    return v
+        kk = repr(key)
+        if kk not in m.known:
+            # one decision per key and path: a later subscript / pop of the same key agrees with this lookup
+            m.known[kk] = I.path.choose("get %r" % (key,), ["hit", "miss"]) == "hit"
+        if m.known[kk]:
             return m.value_for(key)
         return default
     if name == "pop":
         key = args[0]
         I.path.effects.append(("map-pop", m.base, key))
-        c = I.path.choose("pop %r" % (key,), ["hit", "miss"])
+        kk = repr(key)
+        if kk in m.known:
+            c = "hit" if m.known[kk] else "miss"
+            I.path.choices.append(("pop %r" % (key,), c))
+        else:
+            c = I.path.choose("pop %r" % (key,), ["hit", "miss"])
+        m.known[kk] = False
         if c == "hit":
             m.removes.append(key)
             return m.value_for(key)
@@ -2482,6 +2650,19 @@ def lib_call(fr: Frame, dotted: str, args, kwargs, node):
             return Aff.sym("int(%r)" % (v,))
         if isinstance(v, (int, str)):
             return int(v)
+    if dotted in ("typing.NamedTuple", "collections.namedtuple") and len(args) >= 2 and isinstance(args[0], str):
+        spec = args[1]
+        if isinstance(spec, AList):
+            spec = list(spec.items)
+        if isinstance(spec, str):
+            fields = spec.replace(",", " ").split()
+        else:
+            fields = [x[0] if isinstance(x, (tuple, list)) else x for x in spec]
+        if not all(isinstance(x, str) for x in fields):
+            fr.unsupported(node, "namedtuple fields %r" % (spec,))
+        return ANTType(args[0], fields)
+    if dotted == "contextlib.ExitStack" and not args and not kwargs:
+        return AExitStack()
     if dotted == "builtins.isinstance":
         return lib_isinstance(fr, args[0], args[1], node)
     if dotted in ("builtins.getattr", "builtins.hasattr") and len(args) >= 2 and isinstance(args[1], str):
